@@ -56,6 +56,9 @@ struct VolRoundtrip : Family {
 				nm = randName(r, 1, r.chance(1, 5) ? 30 : 12, true);
 				// related names stress the ordering: reuse a prefix of an earlier name
 				if (!names.empty() && r.chance(1, 3)) { const std::string& o = names[r.below(names.size())]; nm = o.substr(0, 1 + r.below(o.size())) + (r.chance(1, 2) ? "" : randName(r, 1, 3, true)); }
+				// near-equal names: same spelling except for characters 0x20 apart that are not a letter's two cases
+				if (!names.empty() && r.chance(1, 4)) { std::string sib = bit5Sibling(names[r.below(names.size())], r); if (!sib.empty()) nm = sib; }
+				else if (r.chance(1, 6)) { static const char* P[] = {"[", "{", "@", "`", "^", "~", "]", "}"}; nm.insert(r.below(nm.size() + 1), P[r.below(8)]); }
 				bool clash = false;
 				for (auto& o : names) if (ref::nameEqualNoCase(o, nm)) clash = true;
 				if (!clash) break;
